@@ -308,7 +308,9 @@ def handVerdict (prop : String) (args res : List String) : Verdict :=
       else vOk tag
   | ["hand", mode, nps, script], [outs] =>
     -- "s-": the harness keeps stale partial files under the names of the pieces being fetched; the task must behave the same
-    let mode := if mode.startsWith "s-" then (mode.drop 2).toString else mode
+    -- "d-": a directory of the piece file's name is in the way: the store fails, the task must end without reporting the piece
+    let storeFails := mode.startsWith "d-"
+    let mode := if mode.startsWith "s-" ∨ mode.startsWith "d-" then (mode.drop 2).toString else mode
     if outs = "P" ∨ (outs.splitOn "PANIC").length > 1 then vProp "task-panicked" "hand" else
     match nps.toNat?, initState mode (nps.toNat?.getD 0), (script.splitOn ";").mapM parseEv with
     | some _, some st0, some evs =>
@@ -335,7 +337,14 @@ def handVerdict (prop : String) (args res : List String) : Verdict :=
             if (propPred prop mode modelTrace).isSome then vDiff "model-trace-violates-predicate" "?" tag else
             let modelToks := modelTrace.map fun (_, o, e) => eventTok o e
             match (modelToks.zip outl).zipIdx.find? (fun ((m, i), _) => m ≠ i) with
-            | some ((m, _), k) => vDiff s!"event{k}" m tag
+            | some ((m, _), k) =>
+              -- where the model stores and the disk refuses, the implementation's task ends with an error, stores nothing and
+              -- reports nothing (P01 above has checked the rest of its trace); the model has no failing disk
+              let mo := (modelTrace.getD k (.eof, [], none)).2.1
+              let (io, ie) := implOuts.getD k ([], none)
+              if storeFails ∧ !(savedObs mo).isEmpty ∧ (savedObs io).isEmpty ∧ !(cmds io).contains .pieceDone ∧ ie = some false
+              then vOk (tag ++ "-store-fails")
+              else vDiff s!"event{k}" m tag
             | none => vOk tag
     | _, _, _ => vBad (joinToks args)
   | _, _ => vBad (joinToks args)
